@@ -133,7 +133,7 @@ def run(chk, F, tier):
                     continue
                 nf += 1
                 wk.num.ctx_events = p.state["events"]
-                n = wk.num.aff(("arg", 2, "n_bits"))
+                n = wk.num.aff(("arg", 2, "arg2"))
                 b0 = wk.num.aff(("field", ("deref", rn.SELF), "bits_in_buffer"))
                 g = le(b0 + const(1), n) if (n is not None and b0 is not None) else None
                 if g is None or not lp.entails(wk.num.close(base, [g]), g):
